@@ -1083,38 +1083,32 @@ func (p *Proof) undoAdd(numAdds, numLeaves uint64, cachedHashes []Hash, toDestro
 	prevForestRows := TreeRows(numLeaves - numAdds)
 
 	// Move positions to their previous positions before the empty roots were destroyed.
-	for _, destroyed := range toDestroy {
-		for i, target := range targetsWithHash.positions {
-			if destroyed <= target {
-				continue
-			}
+	//
+	// When an addition writes over an empty root, the subtree that's being built up
+	// takes the place of the parent of that empty root. Everything at and below that
+	// parent position was moved up by one row and has to move back down. The roots
+	// were destroyed from the bottom up and in the order of the additions so we undo
+	// them in the reverse order.
+	for i := len(toDestroy) - 1; i >= 0; i-- {
+		destroyed := toDestroy[i]
+		movedUp := Parent(destroyed, forestRows)
 
-			// If these positions are in different subtrees, continue.
-			subtree, _, _, _ := DetectOffset(target, numLeaves)
-			subtree1, _, _, _ := DetectOffset(destroyed, numLeaves-numAdds)
-			if subtree != subtree1 {
-				continue
-			}
-			if isAncestor(Parent(destroyed, forestRows), target, forestRows) {
+		for i, target := range targetsWithHash.positions {
+			if target == movedUp || isAncestor(movedUp, target, forestRows) {
 				targetsWithHash.positions[i] = calcPrevPosition(target, destroyed, forestRows)
 			}
 		}
 
 		for i, target := range proofWithPos.positions {
-			if destroyed <= target {
-				continue
-			}
-			// If these positions are in different subtrees, continue.
-			subtree, _, _, _ := DetectOffset(target, numLeaves)
-			subtree1, _, _, _ := DetectOffset(destroyed, numLeaves-numAdds)
-			if subtree != subtree1 {
-				continue
-			}
-			if isAncestor(Parent(destroyed, forestRows), target, forestRows) {
+			if target == movedUp || isAncestor(movedUp, target, forestRows) {
 				proofWithPos.positions[i] = calcPrevPosition(target, destroyed, forestRows)
 			}
 		}
 	}
+
+	// Moving positions down a row changes their order.
+	sort.Sort(targetsWithHash)
+	sort.Sort(proofWithPos)
 
 	// Prune all positions that can't exist in the previous forest rows.
 	var err error
@@ -1125,31 +1119,6 @@ func (p *Proof) undoAdd(numAdds, numLeaves uint64, cachedHashes []Hash, toDestro
 	proofWithPos, err = pruneEdges(proofWithPos, numAdds, numLeaves, forestRows, prevForestRows)
 	if err != nil {
 		return nil, err
-	}
-
-	// Prune all positions that are under the previously empty root.
-	for row := 0; row <= int(prevForestRows); row++ {
-		for _, destroyed := range toDestroy {
-			for i := 0; i < proofWithPos.Len(); i++ {
-				target := proofWithPos.positions[i]
-				// If these positions are in different subtrees, continue.
-				subtree, _, _, _ := DetectOffset(destroyed, numLeaves)
-				subtree1, _, _, _ := DetectOffset(target, numLeaves)
-				if subtree == subtree1 || target == destroyed {
-					proofWithPos.Delete(i)
-				}
-			}
-
-			for i := 0; i < targetsWithHash.Len(); i++ {
-				target := targetsWithHash.positions[i]
-				// If these positions are in different subtrees, continue.
-				subtree, _, _, _ := DetectOffset(destroyed, numLeaves)
-				subtree1, _, _, _ := DetectOffset(target, numLeaves)
-				if subtree == subtree1 || target == destroyed {
-					targetsWithHash.Delete(i)
-				}
-			}
-		}
 	}
 
 	// Remap all positions to their previous positions before the remap.
